@@ -398,11 +398,11 @@ func (h *Holder) CreateIndexIfNotExists(name string, opt IndexOptions) (*Index, 
 
 	h.mu.RUnlock()
 
-	index, err := h.CreateIndex(name, opt)
-	if _, ok := err.(ConflictError); err != nil && !ok {
-		return nil, err
-	}
-	return index, nil
+	// createIndex returns the index if another caller created it in the
+	// meantime.
+	h.mu.Lock()
+	defer h.mu.Unlock()
+	return h.createIndex(name, opt)
 }
 
 func (h *Holder) createIndex(name string, opt IndexOptions) (*Index, error) {
